@@ -37,6 +37,11 @@ contract(T + ".digest_glucose", "C01", params={"expression": "str"},
          ensures={"always-a-string": "len(result) >= 0"})
 
 
+# "explicitly registered tools": an engine starts with the tools it was given and nothing else -- in particular not with another engine's registry
+contract(T + ".__init__", "C01", is_init=True, params={"tools": "none", "allowed_capabilities": "opt:set:enum:Capability"}, raises=[],
+         ensures={"starts-without-tools": "len(self.tools) == 0"})
+
+
 def native_replay(rep):
     import os, sys
     sys.path.insert(0, os.path.dirname(os.path.dirname(os.path.abspath(__file__))))
